@@ -38,7 +38,8 @@
 From Coq Require Import ZArith List Bool.
 From IPV8V Require Import gen.G09_rules model.M09_reclaim model.M09_harness model.M09_network spec.S09_reclaim
   proofs.P09_inv proofs.P09_network_frame proofs.P09_network_node proofs.P09_network_step
-  proofs.P09_network_inv proofs.P09_network_main.
+  proofs.P09_network_inv proofs.P09_network_main proofs.P09_network_binv proofs.P09_network_bstep
+  proofs.P09_network_bmain.
 Import ListNotations.
 Open Scope Z_scope.
 
@@ -281,16 +282,182 @@ Example c09_path_bound_defaults :
   B_path (default_settings 1) 1 1 = 32 /\ B_path (default_settings 1) 1 2 = 34 /\ B_path (default_settings 1) 1 3 = 36.
 Proof. vm_compute. repeat split; reflexivity. Qed.
 
-(* What is missing with respect to the property text (hence `_partial`):
-   1. Half-built circuits: `quiet_shape_b` asks that no create / extend for the ids of the path is under way
-      (no such cell in flight, no create-request cache naming them, no retry cache).  With a handshake under
-      way new ids are still being linked to the path, so the id set of the statement would have to grow
-      during the run.  The originator side of that phase is covered per node by C09 `circuit_bounded_reclaim`.
+(* ================================================================== circuits under construction *)
+(* A circuit whose construction is under way or has been abandoned at any stage.  While it is built the ids
+   that belong to it are not a path but a tree that grows: the originator retries its first create under the
+   same id with other candidates, a node asked to extend allocates a fresh id for every attempt, every node
+   that accepts a create holds an exit socket.  `F : family` records that tree as a ghost - per id its level,
+   the node at its upper end, the id it was extended from, the candidates at its lower end; it is computed
+   from the history (ids that are never allocated simply stay unused) and the theorem holds for every F that
+   passes the checks.  O is the originator, x0 its circuit id, h the number of hops it is to have.
+
+   Hypotheses (executable, evaluated on observed histories by tools/checks/c09_path.py):
+   * `build_shape_b st F O x0 h tq w`: at the start whatever is held or in flight under an id of F is what the
+     tree allows (in particular: nothing at all, before the circuit exists; or the leftovers of the handshake
+     at the moment the originator gives up); the originator's entry, if there is one, is closing, or not yet
+     ready and created early enough that the retry budget of the code (next_hop_timeout *
+     (circuit_timeout / next_hop_timeout + hops - 1)) plus remove_tunnel_delay runs out by tq.
+   * `brun_ok st D F O x0 tq w tr`: every step is timely, datagrams live at most D, decryption is typed; a created
+     answers the create it was sent for; the circuit is created by O only, by tq - build_bound - delay, with its
+     first hops among the candidates of x0 in F; an id of F is allocated only where F says, by the body of
+     on_extend while the exit socket it extends is still there; no application data, outside datagram or cell
+     from outside the modelled nodes for ids of F; and the circuit does not become ready (`unready_b`: a circuit
+     that does is the business of the theorem above).
+   Everything else is free: which handshake message is lost, duplicated, delayed or overtaken, how often the
+   originator's RetryRequestCache times out and which candidates it then picks (within F), whether and when
+   the originator tears the circuit down, with or without a destroy, or is cut off from the network.
+
+   Conclusion: at any T > tq + 2 * h * D + (max_time_inactive + sweep + remove_tunnel_delay) at which the nodes
+   have been served, no node holds a circuit, relay or exit entry under ANY id of F.  Counted from the creation of
+   the circuit at tc (tq = tc + build_bound + remove_tunnel_delay): T > tc + B_build st D goal h. *)
+Theorem B_build_formula : forall st D goal hops,
+  B_build st D goal hops
+  = s_next_hop_timeout st * (s_circuit_timeout st / s_next_hop_timeout st + goal - 1) + s_remove_delay st
+    + (2 * Z.of_nat hops * D + (s_max_inactive st + s_sweep st + s_remove_delay st)).
+Proof. exact (fun st D goal hops => eq_refl). Qed.
+Print Assumptions B_build_formula.
+
+Theorem path_bounded_reclaim_building_partial : forall st, settings_ok st ->
+  forall D F O x0 h tq names t0 tr1 tr2 T,
+  0 <= D -> nodup_b names = true ->
+  nrun_timely st (init_net names t0) tr1 = true ->
+  let wq := nrun st (init_net names t0) tr1 in
+  build_shape_b st F O x0 h tq wq = true ->
+  brun_ok st D F O x0 tq wq tr2 = true ->
+  let wT := nrun st wq tr2 in
+  all_on_time st wT T = true ->
+  tq + B_path st D h < T ->
+  net_holds wT (map fst F) = false.
+Proof. exact build_reclaim_l. Qed.
+Print Assumptions path_bounded_reclaim_building_partial.
+
+Theorem path_bounded_reclaim_building_from_partial : forall st, settings_ok st ->
+  forall D F O x0 h tq wq tr T,
+  0 <= D ->
+  (forall n s, aget n (nodes wq) = Some s -> inv st s) ->
+  build_shape_b st F O x0 h tq wq = true ->
+  brun_ok st D F O x0 tq wq tr = true ->
+  tq + B_path st D h < T ->
+  forall n s x, aget n (nodes (nrun st wq tr)) = Some s -> on_time st s T = true ->
+    In x (map fst F) -> holds_id s x = false.
+Proof. exact build_reclaim_from_l. Qed.
+Print Assumptions path_bounded_reclaim_building_from_partial.
+
+(* the bound counted from the creation of the circuit *)
+Theorem building_bound_from_creation : forall st D goal h tc T,
+  tc + B_build st D goal h < T <-> (tc + build_bound st goal + s_remove_delay st) + B_path st D h < T.
+Proof. intros. unfold B_build. split; intro H; rewrite <- !Z.add_assoc in *; exact H. Qed.
+Print Assumptions building_bound_from_creation.
+
+(* the retry budget: while an own circuit is neither closing nor ready, every properly timed event of its node
+   happens within build_bound + remove_tunnel_delay of its creation - so that is when the originator stops *)
+Theorem building_stops_in_time : forall st, settings_ok st -> forall s t x c,
+  inv st s -> on_time st s t = true -> aget x (circuits s) = Some c -> c_closing c = false ->
+  c_hops c < c_goal c -> t <= creation (c_ro c) + build_bound st (c_goal c) + s_remove_delay st.
+Proof. exact building_time. Qed.
+Print Assumptions building_stops_in_time.
+
+(* the cross-node invariant over the growing tree is preserved by every step that meets the assumptions *)
+Theorem building_invariant_preserved : forall st D F O x0 h tq,
+  settings_ok st -> 0 <= D -> fam_ok_b F O x0 h = true -> forall w tl,
+  wgoodF st D F O x0 h tq w -> winv st w -> bstep_ok st D F O x0 tq w tl = true ->
+  wgoodF st D F O x0 h tq (nstep st w tl).
+Proof. exact bnstep_good. Qed.
+Print Assumptions building_invariant_preserved.
+
+(* ------------------------------------------------------------------ non-vacuity *)
+(* circuit_timeout 30 s, next_hop_timeout 10 s: three tries.  The originator 0 creates circuit 11 (2 hops) at
+   t = 1 through candidate 1, which joins; the extend reaches 1, which allocates id 12 and asks node 2, which joins -
+   but the created is lost.  At t = 11 the RetryRequestCache times out: the originator extends again, 1 allocates
+   id 13 and asks node 3, which joins; that created is lost too, and a duplicate of the extend that arrives at
+   t = 13 is refused.  At t = 21 the budget is spent: the originator removes its circuit (gone at 26); the three
+   exit sockets - at 1 for id 11, at 2 for id 12, at 3 for id 13 - go by inactivity at 30, 30 and 40.  The family
+   has three ids; before the run none of them is in use (the shape check passes on the initial network).
+   tq = 1 + build_bound + remove_tunnel_delay = 46; with D = 2: T = 86 > 1 + B_build = 84. *)
+Definition bex_st := mkSettings 100 3600 20 1000000 30 60 10 5 8 5 10 true true.
+Definition bex_fam : family :=
+  [(11, mkF 1 0 None [1]); (12, mkF 2 1 (Some 11) [2]); (13, mkF 2 1 (Some 11) [3])].
+Definition bex_sweeps (t : Z) :=
+  [(t, NLocal 0 ESweep); (t, NLocal 1 ESweep); (t, NLocal 2 ESweep); (t, NLocal 3 ESweep)].
+Definition bex_tr : list (Z * nlabel) :=
+  [ (1, NLocal 0 (ECreateCircuit 11 2 (sp 1 true 101) [100]));
+    ex_dl 1 0 false true 100 (MCreate 101) [];
+    (1, NLocal 1 (ex_run0 [100]));
+    ex_dl 1 0 false true 100 (MCreated 101 VOk (sp 2 true 102)) [120];
+    ex_dl 1 0 false false 120 (MExtend 102) [];
+    (1, NLocal 1 (ERun 0 true 2 12 55 np [100]));
+    ex_dl 1 0 false true 100 (MCreate 55) [];
+    (1, NLocal 2 (ex_run0 [100]));
+    (1, NDrop 0) ]
+  ++ bex_sweeps 5 ++ bex_sweeps 10 ++
+  [ (11, NLocal 0 (ERetryTimeout 11));
+    (11, NLocal 0 (ERun 0 false 0 0 0 (sp 3 false 103) [120]));
+    (11, NLocal 1 (ECreateTimeout 55));
+    ex_dl 11 0 true false 120 (MExtend 103) [];
+    (11, NLocal 1 (ERun 0 true 3 13 56 np [100]));
+    ex_dl 12 1 false true 100 (MCreate 56) [];
+    (12, NLocal 3 (ex_run0 [100]));
+    (12, NDrop 1);
+    ex_dl 13 0 false false 120 (MExtend 103) [];
+    (13, NLocal 1 (ERun 0 false 0 0 0 np [])) ]
+  ++ bex_sweeps 15 ++ bex_sweeps 20 ++
+  [ (21, NLocal 0 (ERetryTimeout 11)); (21, NLocal 0 (ex_run0 [])); (21, NLocal 1 (ECreateTimeout 56)) ]
+  ++ bex_sweeps 25 ++ [ (25, NLocal 1 (ex_run0 [])); (25, NLocal 2 (ex_run0 [])); (26, NLocal 0 (EWake 0)) ]
+  ++ [ (30, NLocal 1 (EWake 0)); (30, NLocal 2 (EWake 0)) ] ++ bex_sweeps 30
+  ++ bex_sweeps 35 ++ [ (35, NLocal 3 (ex_run0 [])) ] ++ [ (40, NLocal 3 (EWake 0)) ] ++ bex_sweeps 40
+  ++ bex_sweeps 45 ++ bex_sweeps 50 ++ bex_sweeps 55 ++ bex_sweeps 60 ++ bex_sweeps 65 ++ bex_sweeps 70
+  ++ bex_sweeps 75 ++ bex_sweeps 80 ++ bex_sweeps 85.
+Notation bex_w0 := (nrun bex_st (init_net [0; 1; 2; 3] 0) []).
+
+Example c09_building_hypotheses_hold :
+  build_shape_b bex_st bex_fam 0 11 2 46 bex_w0 = true
+  /\ brun_ok bex_st 2 bex_fam 0 11 46 bex_w0 bex_tr = true
+  /\ all_on_time bex_st (nrun bex_st bex_w0 bex_tr) 86 = true
+  /\ 46 + B_path bex_st 2 2 = 84 /\ 1 + B_build bex_st 2 2 2 = 84
+  (* at t = 20 four nodes hold entries under the three ids of the family, two of which did not exist at t = 10 *)
+  /\ net_holds (nrun bex_st bex_w0 (firstn 35 bex_tr)) [11] = true
+  /\ net_holds (nrun bex_st bex_w0 (firstn 35 bex_tr)) [12] = true
+  /\ net_holds (nrun bex_st bex_w0 (firstn 35 bex_tr)) [13] = true
+  /\ net_holds (nrun bex_st bex_w0 (firstn 17 bex_tr)) [13] = false.
+Proof. vm_compute. repeat split; reflexivity. Qed.
+
+Example c09_building_reclaimed :
+  net_holds (nrun bex_st bex_w0 bex_tr) (map fst bex_fam) = false.
+Proof.
+  destruct c09_building_hypotheses_hold as (H3 & H4 & H5 & H6 & _).
+  assert (Hst : settings_ok bex_st) by (vm_compute; repeat split; discriminate).
+  assert (HD : 0 <= 2) by discriminate.
+  assert (H1 : nodup_b [0; 1; 2; 3] = true) by reflexivity.
+  assert (H2 : nrun_timely bex_st (init_net [0; 1; 2; 3] 0) [] = true) by reflexivity.
+  assert (HT : 46 + B_path bex_st 2 2 < 86) by (rewrite H6; reflexivity).
+  exact (path_bounded_reclaim_building_partial bex_st Hst 2 bex_fam 0 11 2%nat 46 [0; 1; 2; 3] 0 [] bex_tr 86
+           HD H1 H2 H3 H4 H5 HT).
+Qed.
+
+(* the shipped settings: a 3-hop circuit that never completes is reclaimed everywhere within 80 + 5 + 36 s of its
+   creation when datagrams live at most a second *)
+Example c09_building_bound_defaults :
+  build_bound (default_settings 1) 3 = 80 /\ B_build (default_settings 1) 1 3 3 = 121
+  /\ B_build (default_settings 1) 1 1 1 = 97.
+Proof. vm_compute. repeat split; reflexivity. Qed.
+
+(* What is missing with respect to the property text (hence `_partial`), for the two theorems together:
+   1. The junction of the two situations in full generality.  Circuits that never become ready are covered from
+      their creation (`path_bounded_reclaim_building_partial`, whatever is lost, duplicated or retried).  Circuits
+      that did become ready are covered once torn down at the originator - also with handshake leftovers, since
+      `build_shape_b` accepts a closing ready circuit - and, by the first theorem, when the path breaks at a node
+      or link while the originator stays alive, but the latter only without handshake leftovers for the ids of the
+      path (`quiet_shape_b` with j > 0 asks for none).
    2. A node that crashes in the sense of no longer being served while it stays in the node map (its own
       entries then stay: the conclusion is about nodes whose event loop runs).  Cut links and isolated nodes
-      are covered (`dead`), teardown at any node is covered (j).
-   3. Paths that visit the same node twice, and id collisions (2^-32 per pair in the code).
-   4. D: the bound is in terms of the settings and of the largest life-time D of a datagram in the network,
+      are covered (`dead`, and for circuits under construction simply as lost messages).
+   3. Paths that visit the same node twice (first theorem; the building theorem only asks that no node extends a
+      circuit to itself) and id collisions (2^-32 per pair in the code: here the family F is given, an id of F is
+      allocated only where F says).
+   4. D: the bounds are in terms of the settings and of the largest life-time D of a datagram in the network,
       which no setting of py-ipv8 bounds.
-   5. Right after the handshake a relay still holds the exit socket it had before it became a relay (until
-      remove_tunnel_delay has passed): with j > 0 the shape asks that no node above the break holds one. *)
+   5. First theorem, j > 0: right after the handshake a relay still holds the exit socket it had before it became
+      a relay (until remove_tunnel_delay has passed); the shape asks that no node above the break holds one.
+   6. Building theorem: that the body of on_extend runs while the exit socket it extends is still there, and that a
+      created carries the identifier of the create it answers, are assumptions on the trace (checked on every
+      observed history), not derived from the model, in which identifiers are oracle values. *)
